@@ -877,6 +877,16 @@ fn run(s: &Scn, st: &mut Stats) -> Verdict {
         st.sample(0, json!({"target": tname, "fmt": format!("{:?}", s.fmt), "cases": s.muts.len(), "first": s.muts.iter().take(3).collect::<Vec<_>>(),
             "outcomes": results.iter().take(6).map(|r| r.o.clone()).collect::<Vec<_>>() }));
     }
+    // proving keys and full prover parameter sets are local artefacts of the prover: the
+    // property asks for them to be exercised and reported only - a child that dies or hangs on
+    // one of them is counted, like their panics and large allocations above
+    let crash = match crash {
+        Some(v) if reported_only(s.target) => {
+            st.inc(&format!("reported.{tname}.{}", if v.class == "Hang" { "hang" } else { "child_died" }));
+            None
+        }
+        other => other,
+    };
     if let Some(v) = crash.or(first) {
         return Verdict::Violation(v);
     }
